@@ -199,7 +199,61 @@ def rule_key(fx, rep):
             if not good:
                 ok = False
                 rep.violation("C19-KEY", "C19-KEY/get", f"TranspositionTable::get {why}", {"fn": g.name, "file": g.file, "line": s.get("line")})
-    rep.rule("C19-KEY", n, 1, ok, "Some(..) returns of get guarded by full key equality")
+    floor = 1
+    if n == 0:
+        # combinator form: slot.as_ref().filter(|e| e.key == *key).map(|e| &e.data)
+        from facts import resolve_captures
+        recognised = False
+        for conds, ret, _bb in decision_paths(g, 64):
+            r = deep_strip(ret) if ret is not None else None
+            if not (isinstance(r, tuple) and r and r[0] == "call" and str(r[1]).endswith("Option::map") and len(r[2]) == 2):
+                continue
+            inner = deep_strip(r[2][0])
+            if not (isinstance(inner, tuple) and inner[0] == "call" and str(inner[1]).endswith("Option::filter") and len(inner[2]) == 2):
+                continue
+            src = deep_strip(inner[2][0])
+            if isinstance(src, tuple) and src[0] == "call" and str(src[1]).endswith("Option::as_ref"):
+                src = src[2][0]
+            sl = slot_of(("deref", src)) or slot_of(src)
+            c1 = [x for x in walk(inner[2][1]) if isinstance(x, tuple) and x and x[0] == "agg" and str(x[1]).startswith("closure:")]
+            c2 = [x for x in walk(r[2][1]) if isinstance(x, tuple) and x and x[0] == "agg" and str(x[1]).startswith("closure:")]
+            if not (c1 and c2):
+                continue
+            recognised = True
+            n += 1
+            good, why = True, ""
+            if sl is None or not is_entry_idx(sl[0], keyarg):
+                good, why = False, "the filtered value is not the entry in slot get_entry_idx(key)"
+            b1, b2 = fx.bodies.get(str(c1[0][1])[8:]), fx.bodies.get(str(c2[0][1])[8:])
+            if good:
+                p1 = [resolve_captures(fx, b1, pr[1]) for pr in decision_paths(b1, 8) if pr[1] is not None] if b1 is not None else []
+                co = cmp_op(p1[0]) if len(p1) == 1 else None
+
+                def entry_field(x, f):
+                    x = strip_refs(x)
+                    while isinstance(x, tuple) and x and x[0] == "deref":
+                        x = strip_refs(x[1])
+                    if not (isinstance(x, tuple) and x and x[0] == "field" and x[2] == f):
+                        return False
+                    y = strip_refs(x[1])
+                    while isinstance(y, tuple) and y and y[0] == "deref":
+                        y = strip_refs(y[1])
+                    return isinstance(y, tuple) and y[:2] == ("arg", 2)
+                if not (co and co[0] == "Eq" and ((entry_field(co[1], "key") and strip_refs(co[2]) == keyarg) or (entry_field(co[2], "key") and strip_refs(co[1]) == keyarg))):
+                    good, why = False, "the filter does not test `entry.key == *key` for the probed key"
+            if good:
+                p2 = [pr[1] for pr in decision_paths(b2, 8) if pr[1] is not None] if b2 is not None else []
+                if not (len(p2) == 1 and entry_field(p2[0], "data")):
+                    good, why = False, "the mapped value is not the data of the filtered entry"
+            rep.obligation(good)
+            rep.sample({"rule": "C19-KEY", "form": "as_ref().filter(key ==).map(data)", "ok": good})
+            if not good:
+                ok = False
+                rep.violation("C19-KEY", "C19-KEY/get", f"TranspositionTable::get {why}", {"fn": g.name, "file": g.file, "line": g.line})
+        if not recognised:
+            rep.notes.append("C19-KEY: TranspositionTable::get returns its hit neither from a guarded `Some(&entry.data)` nor through as_ref().filter(..).map(..); clause not decided")
+            floor = 0
+    rep.rule("C19-KEY", n, floor, ok, "Some(..) returns of get guarded by full key equality")
 
 
 def field_stores(fx, body):
@@ -447,13 +501,24 @@ def rule_idx(fx, rep):
     rep.rule("C19-IDX", n, 3, ok, "slot index provenance")
 
 
-def const_writes(body, field):
-    """[(bb, const)] assignments self.<field> = const"""
+def const_writes(body, field, fx=None, _depth=0):
+    """[(bb, const)] assignments self.<field> = const; with `fx`, also the unconditional ones made by a `&mut self` helper of
+    the table (`self.reset_counters()`), attributed to the block of the call"""
     out = []
     for bb, j, s in body.stmts():
         if s["k"] == "assign" and s["lhs"]["l"] == 1 and [p.get("n") for p in s["lhs"].get("p", []) if isinstance(p, dict)] == [field]:
             e = body.expr(s["rv"].get("op"), expand_named=True) if s["rv"]["k"] == "use" else None
             out.append((bb, e))
+    if fx is not None and _depth == 0:
+        for bb, t in body.calls():
+            hb = fx.body(callee_name(t)) if callee_name(t) else None
+            if hb is None or hb is body or "transposition_table::TranspositionTable" not in norm(hb.name) or hb.kind != "AssocFn" or not t["args"]:
+                continue
+            if strip_refs(body.expr(t["args"][0], expand_named=True, at=bb)) != ("arg", 1, "self"):
+                continue
+            for hbb, e in const_writes(hb, field, fx, 1):
+                if hb.must_pass(0, [hbb], hb.return_blocks()):
+                    out.append((bb, e))
     return out
 
 
@@ -470,7 +535,7 @@ def rule_clear(fx, rep):
     # reset: unconditional zeroing + every slot cleared
     for fld in ("occupied", "generation"):
         n += 1
-        w = const_writes(rs, fld)
+        w = const_writes(rs, fld, fx)
         good = len(w) >= 1 and all(e == ("const", 0) for _, e in w) and rs.must_pass(0, [bb for bb, _ in w], rs.return_blocks())
         rep.obligation(good)
         if not good:
@@ -500,6 +565,25 @@ def rule_clear(fx, rep):
             over_data = any(isinstance(x, tuple) and len(x) == 3 and x[0] == "field" and x[2] == "data" and deep_strip(x[1])[:2] == ("arg", 1) for x in walk(it))
             if calls_in and plain and over_data and any(c.endswith("Iterator>::next") for c in calls_in):
                 good = True
+    # `self.data.iter_mut().for_each(|slot| *slot = None)`: an unconditional for_each over the plain mutable iteration of the whole
+    # vector, with a closure that stores None through its parameter on every path
+    for bb, t in rs.calls():
+        cn = norm(callee_name(t) or "")
+        if not (cn.endswith("Iterator::for_each") or cn.endswith("Iterator>::for_each")) or not rs.must_pass(0, [bb], rs.return_blocks()) or len(t["args"]) != 2:
+            continue
+        it = rs.expr(t["args"][0], expand_named=True, at=bb)
+        calls_in = [x[1] for x in walk(it) if isinstance(x, tuple) and x and x[0] == "call" and isinstance(x[1], str)]
+        plain = bool(calls_in) and all(c.endswith("iter_mut") or c.endswith("DerefMut>::deref_mut") or c.endswith("IntoIterator>::into_iter") for c in calls_in)
+        over_data = any(isinstance(x, tuple) and len(x) == 3 and x[0] == "field" and x[2] == "data" and deep_strip(x[1])[:2] == ("arg", 1) for x in walk(it))
+        clos = [x for x in walk(rs.expr(t["args"][1], expand_named=True, at=bb)) if isinstance(x, tuple) and x and x[0] == "agg" and str(x[1]).startswith("closure:")]
+        cb = fx.bodies.get(str(clos[0][1])[len("closure:"):]) if clos else None
+        if not (plain and over_data and cb is not None):
+            continue
+        st_none = [cbb for cbb, cj, cs in cb.stmts() if cs["k"] == "assign" and cs["lhs"].get("p") == ["*"] and cs["lhs"]["l"] == 2 and cs.get("rv") and
+                   ((cs["rv"]["k"] == "agg" and cs["rv"].get("variant") == "None") or
+                    (cs["rv"]["k"] == "use" and str((strip_refs(cb.expr(cs["rv"]["op"], expand_named=True, at=cbb)) or ("",) * 2)[1]).endswith("Option::None")))]
+        if st_none and cb.must_pass(0, st_none, cb.return_blocks()):
+            good = True
     rep.obligation(good)
     if not good:
         bad("reset/slots", "reset does not assign None to every slot 0..data.len()", rs)
@@ -538,7 +622,7 @@ def rule_clear(fx, rep):
         bad("resize/realloc", f"resize: {why}", rz)
     for fld, want in (("occupied", ("const", 0)), ("generation", ("const", 0)), ("size", ("arg", 2, rz.local_name(2)))):
         n += 1
-        w = const_writes(rz, fld)
+        w = const_writes(rz, fld, fx)
         good = bool(rsz) and len(w) >= 1 and all(strip_refs(e) == want for _, e in w) and rz.must_pass(rsz[0][0], [bb for bb, _ in w], rets)
         rep.obligation(good)
         if not good:
@@ -788,6 +872,12 @@ def rule_pref(fx, rep):
 TTF = "src/engine/transposition_table.rs"
 STT = "src/engine/search/transposition.rs"
 MUTANTS = [
+    {"name": "combinator-form probe without the key filter", "expect": "C19-KEY",
+     "edits": [("src/engine/transposition_table.rs", "        unsafe {\n            if let Some(entry) = self.data.get_unchecked(idx) {\n                if entry.key == *key {\n                    return Some(&entry.data);\n                }\n            }\n        }\n\n        None",
+                "        let slot = unsafe { self.data.get_unchecked(idx) };\n        slot.as_ref().filter(|entry| entry.key.0 & 0xFFFF == key.0 & 0xFFFF).map(|entry| &entry.data)")]},
+    {"name": "benign: combinator-form probe", "benign": True,
+     "edits": [("src/engine/transposition_table.rs", "        unsafe {\n            if let Some(entry) = self.data.get_unchecked(idx) {\n                if entry.key == *key {\n                    return Some(&entry.data);\n                }\n            }\n        }\n\n        None",
+                "        let slot = unsafe { self.data.get_unchecked(idx) };\n        slot.as_ref().filter(|entry| entry.key == *key).map(|entry| &entry.data)")]},
     {"name": "occupied slot updated in place, data only (seed C19-5a)", "expect": "C19-POLICY/store/in-place",
      "edits": [("src/engine/transposition_table.rs", "            if let Some(existing_data) = self.data.get_unchecked(idx) {\n                if existing_data.data.should_overwrite_with(&data) {\n                    self.data[idx] = Some(TranspositionTableEntry {\n                        key: key.clone(),\n                        data,\n                    });\n                }",
                 "            if let Some(existing) = self.data.get_unchecked_mut(idx) {\n                if existing.data.should_overwrite_with(&data) {\n                    existing.data = data;\n                }")]},
